@@ -286,7 +286,11 @@ def model_apply(op, mp, vals):
         t = T()
         rec = vals['rec']
         cols = list(t.cols) + [c for c in rec if c not in t.cols]
-        rows = [{c: r.get(c) for c in cols} for r in t.rows] + [{c: rec.get(c) for c in cols}]
+        if op.get('left'):
+            # record + table: the record's row comes first
+            rows = [{c: rec.get(c) for c in cols}] + [{c: r.get(c) for c in cols} for r in t.rows]
+        else:
+            rows = [{c: r.get(c) for c in cols} for r in t.rows] + [{c: rec.get(c) for c in cols}]
         return 'table', MT(cols, rows), None
     if k == 'iadd':
         t = T()
@@ -411,6 +415,8 @@ def real_apply(op, pool, vals):
             return T().relabel(op['arg'])
         if how == 'upper':
             return T().relabel(lambda s: s.upper())
+        if how == 'names':
+            return T().relabel([op['map'][c] for c in T().keys()])        # one new name per column, in column order
         raise HarnessError(how)
     if k == 'do':
         f = _do_fn(op['f'])
@@ -428,6 +434,8 @@ def real_apply(op, pool, vals):
             r = r + t
         return r
     if k == 'add_record':
+        if op.get('left'):
+            return (vals['rec'] + T()) if op['left'] == 'record' else ([vals['rec']] + T())
         return T() + vals['rec']
     if k == 'add_none':
         return T() + (None if op.get('none', True) else 0)
@@ -732,8 +740,12 @@ def gen_history(rng, nops):
         elif k == 'apply' and m.cols:
             op = {'op': 'apply', 't': t, 'f': {'fn': 'cat', 'args': gen.subset(rng, m.cols, 1, 3)}}
         elif k == 'relabel' and m.cols:
-            how = rng.choice(['kw', 'rename', 'dict', 'prefix', 'suffix', 'upper'])
-            if how in ('kw', 'rename', 'dict'):
+            how = rng.choice(['kw', 'rename', 'dict', 'prefix', 'suffix', 'upper', 'names'])
+            if how == 'names':
+                news = rng.sample(free, len(m.cols)) if len(free) >= len(m.cols) else None
+                mapping = dict(zip(m.cols, news)) if news else None
+                arg = None
+            elif how in ('kw', 'rename', 'dict'):
                 olds = gen.subset(rng, m.cols, 1, 2)
                 news = rng.sample(free, len(olds)) if len(free) >= len(olds) else None
                 mapping = dict(zip(olds, news)) if news else None
@@ -766,6 +778,8 @@ def gen_history(rng, nops):
         elif k == 'add_record' and m.n <= 10:
             ks = gen.subset(rng, (m.cols or ['a']) + free[:1], 1)
             op = {'op': 'add_record', 't': t, 'rec': {c: gen.cell(rng) for c in ks}, 'dst': dst}
+            if rng.random() < 0.3 and m.cols:
+                op['left'] = rng.choice(['record', 'list'])
         elif k == 'add_none':
             op = {'op': 'add_none', 't': t, 'none': rng.random() < 0.6, 'dst': dst}
         elif k == 'iadd' and m.n <= 8:
